@@ -52,6 +52,35 @@ PROPS['C06'] = dict(
          'w_envok): resumed CONNACKs leave room for what is carried over; PUBACK/PUBREC name PUBLISH entries. The property '
          'was false on the unchanged tree (three histories); repaired by fixes b3f2128 and 37cc1f9.')
 
+PROPS['C17'] = dict(
+    sess=[('sess_c17', 250, 3000)],
+    events='w', state=['cap', 'used', 'ret', 'rel', 'cp', 'pq', 'conn', 'gen'],
+    monitors=[M.mon_c17],
+    title='transmit arena: retained packets stay intact and capacity is fully recovered',
+    claim='Proved in Coq: a refinement of the concrete byte arena (offsets, copy_within compaction with memmove semantics, '
+          'in-place encoding behind `used`, DUP poke) to the abstract list of (id, bytes, state): compaction, acknowledgement '
+          'in any order, encoding of new packets and DUP marking leave the bytes of every packet that stays retained '
+          'unchanged (DUP marking only sets bit 3 of the first byte); the geometry invariant holds in every reachable '
+          'state (all slice accesses in bounds); the arena never changes size and a quiescent arena admits and encodes '
+          'exactly what a new one does. Tied to the code by long differential histories comparing every retained '
+          'entry (offset, length, bytes) after every action, and a snapshot monitor.',
+    note='Trusted: Coq kernel, model, extraction, harness, snapshot hook. No axioms. Bytes outside live entries '
+         '(alignment gaps, scratch behind `used`, leftovers of failed encodes) are not modelled; they are never read.')
+
+PROPS['C11'] = dict(
+    sess=[('sweep_c11', 600, 8000), ('sess_c11', 200, 3000)],
+    events='wrf', state=['conn', 'live', 'cp', 'ev'],
+    monitors=[M.mon_c11],
+    title='a dead connection handle stays dead and never touches the transport again',
+    claim='Proved in Coq for every script (a fault of every kind at every I/O call of every operation): each operation '
+          'that returns a transport error, the disconnected error or the invalid-packet error leaves the handle dead '
+          '(latched, by induction over the drive / flush / wait loops); disconnect() past its liveness check leaves it dead; '
+          'on a dead handle every network operation returns Disconnected (disconnect: Ok) with the whole world unchanged, '
+          'hence without any read, write or flush. Tied to the code by a systematic fault sweep (fail / zero-eof / drop at '
+          'every I/O index of generated programs, followed by every kind of API call on the same handle).',
+    note='Trusted: Coq kernel, model, extraction, harness. No axioms. Documented non-latching results (WriteZero, Rejected, '
+         'NotReady, InvalidRequest, BufferTooSmall, InflightExhausted, send-time PacketTooLarge) are modelled as the code has them.')
+
 TRUSTED_BASE = [
     'Coq 8.16.1 kernel and its bytecode VM (vm_compute); native_compute is not used',
     'axioms: none (every property theorem is reported "Closed under the global context" by Print Assumptions)',
